@@ -530,8 +530,15 @@ class NumericCommon(HasExpressionLookup, TypeEngineMixin, Generic[_N]):
             # instead validate that the value parses as a number, so that a
             # non-numeric string can't be injected for a literal_execute
             # parameter, but render the original string form unchanged.
-            decimal.Decimal(value)
-            return str(value)
+            # decimal.Decimal() also accepts values that have no numeric
+            # literal in SQL ("nan", "Infinity", "1_0"): those would be
+            # rendered as a bare word, i.e. a column reference.
+            text = str(value).strip()
+            if not decimal.Decimal(value).is_finite() or "_" in text:
+                raise ValueError(
+                    f"value {value!r} can't be rendered as a numeric literal"
+                )
+            return text
 
         return process
 
